@@ -186,7 +186,14 @@ def stepWith (cv : Conv) (st : St) (ws : List String) : St × List String :=
       | none => (st, ["nosnap"])
       | some s0 =>
         match exec cv st.digest s0 c with
-        | none => ({ st with cur := none, snaps := st.snaps.take (k + 1) }, ["panic"])
+        | none =>
+          -- specified panic of a non-increasing push: caught, the deque is unchanged (see below)
+          match c, (step cv.c s0 .isEmpty) with
+          | .op (.push _), some (r, _) =>
+            match observe cv st.digest (if st.digest then fmtRetDigest r else fmtRet r) s0 with
+            | some line => ({ st with cur := some s0, snaps := st.snaps.take (k + 1) ++ [s0] }, ["panic", line])
+            | none => ({ st with cur := none, snaps := st.snaps.take (k + 1) }, ["panic", "panic"])
+          | _, _ => ({ st with cur := none, snaps := st.snaps.take (k + 1) }, ["panic"])
         | some (r, s') =>
           match observe cv st.digest r s' with
           | none => ({ st with cur := none, snaps := st.snaps.take (k + 1) }, ["panic"])
@@ -212,7 +219,16 @@ def stepWith (cv : Conv) (st : St) (ws : List String) : St × List String :=
       | none => (st, ["bad-op"])
       | some c =>
         match exec cv st.digest s c with
-        | none => ({ st with cur := none }, ["panic"])
+        | none =>
+          -- the only panic of a lawful history is the specified one of a non-increasing push; the
+          -- harness catches it and keeps using the deque, which must be unchanged: observe `s` again
+          -- (through `is_empty`, like the harness) and go on
+          match c, (step cv.c s .isEmpty) with
+          | .op (.push _), some (r, _) =>
+            match observe cv st.digest (if st.digest then fmtRetDigest r else fmtRet r) s with
+            | some line => (st, ["panic", line])
+            | none => ({ st with cur := none }, ["panic", "panic"])
+          | _, _ => ({ st with cur := none }, ["panic"])
         | some (r, s') =>
           match observe cv st.digest r s' with
           | none => ({ st with cur := none }, ["panic"])
